@@ -14,6 +14,7 @@ pub mod c11;
 pub mod c12;
 pub mod c13;
 pub mod c14;
+pub mod c15;
 pub mod c16;
 pub mod c17;
 pub mod c18;
@@ -44,6 +45,7 @@ pub fn dispatch(ctx: &Ctx) -> bool {
         "C12" => c12::run(ctx),
         "C13" => c13::run(ctx),
         "C14" => c14::run(ctx),
+        "C15" => c15::run(ctx),
         "C16" => c16::run(ctx),
         "C17" => c17::run(ctx),
         "C18" => c18::run(ctx),
